@@ -352,6 +352,19 @@ func runC15(c *Ctx) {
 			c.Bad("R15.6", FuncName(f)+" :: one waiter goroutine", fpos(f), fmt.Sprintf("%d goroutines", len(gos)))
 		}
 	}
+
+	// ---------- error discipline (E8)
+	errDisciplineFor(c, "C15")
+
+	// ---------- R15.9 failure atomicity
+	c.Rule("R15.9", "E8", "runtime cache: no method writes handler state and can still fail afterwards", 2)
+	c.FailureAtomicity("R15.9", []string{pkgCache}, nil, pkgRRuntime, 4)
+
+
+	// ---------- R15.10 writes bypass the cache
+	c.Rule("R15.10", "E5", "read-modify-write operations of controllers go to the live state: adapters are built on runtime.state, and Create/Update/Modify/Teardown/Destroy/AddFinalizer/RemoveFinalizer of the state adapter never call into the read cache", 10)
+	liveStateRules(c, "R15.10")
+
 }
 
 func plainMutexOpAny(p *Program, name string) InstrPred {
@@ -359,5 +372,44 @@ func plainMutexOpAny(p *Program, name string) InstrPred {
 		call, ok := in.(*ssa.Call)
 
 		return ok && (p.CalleeName(call) == "(*sync.Mutex)."+name || p.CalleeName(call) == "(*sync.RWMutex)."+name)
+	}
+}
+
+// liveStateRules: read-modify-write operations of a controller go to the live state, never through
+// the runtime's read cache (which lags behind the state by the watch latency):
+//   - the state handed to every controller adapter is the runtime's own state;
+//   - the mutating methods of the controller state adapter do not call into the cache.
+func liveStateRules(c *Ctx, rule string) {
+	p := c.P
+
+	for _, name := range []string{"RegisterController", "RegisterQController"} {
+		f := p.Method(pkgRuntime, "Runtime", name)
+		if !c.NeedFunc(rule, f, rtT+"."+name) {
+			continue
+		}
+
+		n := 0
+
+		for _, in := range Find(f, StoreToField("Options", "State")) {
+			st := in.(*ssa.Store)
+			n++
+
+			c.Check(p.Desc(st.Val) == "*param#0.state", rule, FuncName(f)+" :: the adapter's state is the runtime's live state", in.Pos(), "runtime.state", "adapter state is "+p.DescN(st.Val, 3)+": reads that precede a controller's writes would be served from the lagging cache")
+		}
+
+		if n == 0 {
+			c.Unknown(rule, FuncName(f)+" :: the adapter's state is the runtime's live state", fpos(f), "anchor-unresolved: no store to adapter Options.State")
+		}
+	}
+
+	cacheCall := p.CallTo("(*" + pkgCache + ".ResourceCache).*")
+
+	for _, name := range []string{"Create", "Update", "Modify", "ModifyWithResult", "Teardown", "Destroy", "AddFinalizer", "RemoveFinalizer"} {
+		f := p.Method(pkgCtrlState, "StateAdapter", name)
+		if !c.NeedFunc(rule, f, "StateAdapter."+name) {
+			continue
+		}
+
+		c.Check(!p.ReachesCall(f, cacheCall, 3), rule, FuncName(f)+" :: a mutating operation does not consult the read cache", fpos(f), "no cache call", "the operation decides on a cached (possibly stale) copy of the resource")
 	}
 }
